@@ -279,6 +279,8 @@ func Tail(b []byte, n int) string {
 
 // ChildCase is printed by a child before it executes case idx, so the parent knows the culprit of a death.
 func ChildCase(idx int, desc interface{}) {
+	outMu.Lock()
+	defer outMu.Unlock()
 	// every so often publish a snapshot of what was observed so far: a later death must not lose it
 	childCases++
 	if curChildRes != nil && childCases >= nextSnap {
@@ -295,6 +297,9 @@ func ChildCase(idx int, desc interface{}) {
 }
 
 var curChildRes *res.R
+
+// outMu serialises the protocol lines a child prints (cases may run on several goroutines)
+var outMu sync.Mutex
 var childCases int
 var nextSnap = 20
 
@@ -305,12 +310,16 @@ func ChildRes(prop string) *res.R {
 	curChildRes = r
 	r.OnViolation = func(v res.Violation) {
 		b, _ := json.Marshal(v)
+		outMu.Lock()
 		os.Stdout.Write(append(append([]byte("@V "), b...), '\n'))
+		outMu.Unlock()
 	}
 	return r
 }
 
 func ChildDone(r *res.R) {
+	outMu.Lock()
+	defer outMu.Unlock()
 	os.Stdout.Write([]byte("@RESULT "))
 	r.WriteChild("-")
 }
